@@ -22,7 +22,7 @@ FUNCS = ["prepare_problem", "_validate_input_data", "_validate_zone_tree_structu
          "_create_nested_zones", "_get_process_streams_in_each_subzone", "_create_process_stream", "Zone.add_zone",
          "Zone.import_hot_and_cold_streams_from_sub_zones", "StreamCollection.add", "_get_hot_and_cold_utilities", "_set_utilities_for_zone_and_subzones"]
 
-LABELS = ["A", "B", "A/B", "B/A", "A/O1", "O1", "A/A", " A / B ", "Site", "Site/A", "A/B/O1", "B/O1"]
+LABELS = ["A", "B", "A/B", "B/A", "A/O1", "O1", "A/A", " A / B ", "Site", "Site/A", "A/B/O1", "B/O1", "A ", " B"]
 NAMES = ["S", "S_1"]
 TEMPS = [(150.0, 60.0), (50.0, 140.0), (200.0, 120.0), (30.0, 90.0)]
 
@@ -73,7 +73,8 @@ def body(ctx, case):
         if use_tree:
             s["path"] = TREE_LABELS[s["label"]]
         else:
-            s["path"] = ("Site",) + tuple(c.strip() for c in s["label"].split("/") if c.strip())
+            # nested labels are trimmed per component by the library; a flat label is one zone name as written (blanks included)
+            s["path"] = ("Site",) + (tuple(c.strip() for c in s["label"].split("/") if c.strip()) if "/" in s["label"] else (s["label"],))
     zones = list(_walk(site))
     leaves = [(p, z) for p, z in zones if not z.subzones]
     internal = {p for p, z in zones if z.subzones}
@@ -140,7 +141,7 @@ def cases(tier, seed):
 
 FAMILIES = [
     Family(name="labels", cases=cases, body=body, functions=FUNCS, files=FILES,
-           bounds="2 streams (thorough: 3) with duties z3 reals in [1,1e4] and concrete temperatures; zone label of every stream a solver choice from a 12-label pool "
+           bounds="2 streams (thorough: 3) with duties z3 reals in [1,1e4] and concrete temperatures; zone label of every stream a solver choice from a 14-label pool "
                   "(flat, nested to depth 3, suffix/prefix pairs, generated unit-operation names, the root name, whitespace) and its name from {S, S_1}; without a zone tree, "
                   "and with a fixed user tree Site->{A->{U1,U2}, B->{U1}} and 9 unambiguous label forms",
            assumptions=["labels and names are finite-domain symbolic (pools), not unbounded strings",
